@@ -60,6 +60,8 @@ pub struct LayoutRun {
     pub writes: Vec<crate::iod::WriteRec>,
     pub target_bytes: Vec<u8>,
     pub in_place_offsets: Vec<u64>,
+    /// the final content is not the target (C03's verdict; C13 looks at the writes only)
+    pub output_error: Option<String>,
 }
 
 /// Execute a layout through the real planner + executor and judge it.
@@ -146,9 +148,7 @@ pub fn run_layout(l: &Layout, hash_len: usize) -> Result<LayoutRun, String> {
     }
     let mut out = co.into_inner();
     out.set_len(target_bytes.len() as u64);
-    if out.data != target_bytes {
-        return Err(crate::util::describe_diff("output differs from target", &out.data, &target_bytes));
-    }
+    let output_error = if out.data != target_bytes { Some(crate::util::describe_diff("output differs from target", &out.data, &target_bytes)) } else { None };
     // partial presence: some but not all target locations of a reusable chunk in place
     let mut partially = false;
     for i in 0..k as u8 {
@@ -168,6 +168,7 @@ pub fn run_layout(l: &Layout, hash_len: usize) -> Result<LayoutRun, String> {
         writes: out.writes.clone(),
         target_bytes,
         in_place_offsets,
+        output_error,
     })
 }
 
@@ -187,6 +188,9 @@ fn classify(rec: &mut CaseRec, l: &Layout, r: &LayoutRun) {
 
 fn check_layout(l: &Layout, rec: &mut CaseRec) -> Result<(), String> {
     let r = run_layout(l, 64)?;
+    if let Some(e) = &r.output_error {
+        return Err(e.clone());
+    }
     classify(rec, l, &r);
     Ok(())
 }
